@@ -32,7 +32,7 @@ ASSUMPTIONS = [
 ]
 
 MANIFEST = {
-    "category": "partial",
+    "category": "proof",
     "text": "Coq (Properties_C02_valid.v, closed under the global context). RfcValid.v is the SPEC: one independent boolean per "
             "RFC 7950 rule (types 9, list keys 7.8.2, single instance 7.5/7.6, key uniqueness 7.8.2, configuration leaf-list "
             "values 7.7, one case per choice 7.9, mandatory leaf/anydata 7.6.5, mandatory choice 7.9.4, min-elements 7.7.5, "
